@@ -175,6 +175,21 @@ int vs_choose(int n, int cost)
     return c;
 }
 
+static struct {
+    uintptr_t lo, hi;
+} g_ign[8];
+static int g_nign;
+
+void vs_ignore_reset(void) { g_nign = 0; }
+void vs_ignore_range(const volatile void *addr, size_t len)
+{
+    if (g_nign < 8) {
+        g_ign[g_nign].lo = (uintptr_t)addr;
+        g_ign[g_nign].hi = (uintptr_t)addr + len;
+        g_nign++;
+    }
+}
+
 void vs_point(int kind, const volatile void *addr)
 {
     int T = g_cur;
@@ -182,6 +197,9 @@ void vs_point(int kind, const volatile void *addr)
         return;
     if (!(g_opt.kind_mask & (1u << kind)))
         return;
+    for (int i = 0; i < g_nign; i++)
+        if ((uintptr_t)addr >= g_ign[i].lo && (uintptr_t)addr < g_ign[i].hi)
+            return;
     if (g_trace)
         printf("    [T%d] %s %p\n", T, kind < 14 ? kind_names[kind] : "?", (void *)addr);
     decide_n(T, true, 0, 0);
@@ -256,6 +274,15 @@ static int run_one(const int *prefix, int plen)
         th[i].ctx.uc_stack.ss_size = VS_STACK;
         th[i].ctx.uc_link = NULL;
         makecontext(&th[i].ctx, (void (*)(void))trampoline, 1, i);
+    }
+    if (v_crash_fd >= 0) {
+        char cs[4000];
+        size_t o = snprintf(cs, sizeof(cs), "%s@", p->name ? p->name : "");
+        for (int i = 0; i < plen && o + 16 < sizeof(cs); i++)
+            o += snprintf(cs + o, sizeof(cs) - o, "%s%d", i ? "," : "", prefix[i]);
+        if (plen == 0)
+            snprintf(cs + o, sizeof(cs) - o, "-");
+        v_crash_note(cs);
     }
     if (p->setup)
         p->setup();
